@@ -98,8 +98,10 @@ def run_marathon(spec, acc, ctx):
         edb_bytes = edb.serialize()
         words = list(db) + [w for w, _ in gen.absent_keywords(rng, db, gen.caps(scheme, cfg)["kw_limit"], 3, 3)]
         tokens = {w: sch.TokenGen(key, w) for w in words}
-        base = {w: norm(scheme, sch.Search(L.SSEEncryptedDatabase.deserialize(edb_bytes, L.SSEConfig(cfg)),
-                                           tokens[w]).get_result_list()) for w in words}
+        # single-search answers from FRESH scheme objects (nothing remembered from other searches)
+        base = {w: norm(scheme, L.SSEScheme(copy.deepcopy(cfg)).Search(
+            L.SSEEncryptedDatabase.deserialize(edb_bytes, L.SSEConfig(copy.deepcopy(cfg))),
+            tokens[w]).get_result_list()) for w in words}
     except Exception as e:
         acc.note(f"{short}: marathon setup failed {exc_site(e)}")
         acc.count("setup_failed")
@@ -198,8 +200,13 @@ def run_case(scheme, cid, cfg, cls, db, acc, rng, use_module_default=False):
         try:
             tk = scheme_obj.TokenGen(key, w)
             tokens[w] = tk
-            priv = EDB.deserialize(edb_bytes, cobj)
-            base[w] = norm(scheme, scheme_obj.Search(priv, tk).get_result_list())
+            # "as if it were the only search": a FRESH scheme object (nothing remembered from other searches), a private
+            # deserialized index, a token rebuilt from its bytes
+            lone = L.SSEScheme(copy.deepcopy(cfg_before))
+            lone_cobj = L.SSEConfig(copy.deepcopy(cfg_before))
+            priv = EDB.deserialize(edb_bytes, lone_cobj)
+            lone_tk = L.SSEToken.deserialize(tk.serialize(), lone_cobj)
+            base[w] = norm(scheme, lone.Search(priv, lone_tk).get_result_list())
         except Exception as e:
             acc.count("baseline_failed")
             acc.note(f"{short} baseline search failed: {exc_site(e)}")
